@@ -167,12 +167,10 @@ Print Assumptions C05_handler_names.
 
 (* THE tie: the hand-written [body] of Model/Session.v IS the denotation of the program translated from
    today's source -- for every handler of the table, every user table, delegation callback, argument,
-   data action, appe flag and world.  [body_pre] constrains three handlers only:
+   data action, appe flag and world.  [body_pre] constrains two handlers only:
      rnto  : connection.rename_from present  (its ConnectionConditions(rename_from_required) guarantees it;
              absent => AttributeError in the source, 503 in [body]);
-     pass_ : connection.user present          (ConnectionConditions(user_required));
-     pwd   : no double quote in a name of the current directory ([body] ignores the source's
-             .replace that doubles them: C05_pwd_model_ignores_quote_doubling). *)
+     pass_ : connection.user present          (ConnectionConditions(user_required)). *)
 Theorem C05_model_is_program_denotation : forall users self name arg d appe w,
   In name handler_names -> body_pre name w ->
   run_handler_prog users self (prog_of Gen.Handlers.programs name) arg d appe w
@@ -183,35 +181,33 @@ Print Assumptions C05_model_is_program_denotation.
 (* ... and lifted through the decorator stacks: the WHOLE handler (the generic decorator interpreter around
    the program denotations, delegation CDUP->CWD / APPE->STOR included) computed from today's translated
    programs is the model's [handler] -- the function [step] calls -- for EVERY world: the handlers' own
-   ConnectionConditions establish what rnto / pass_ read, so only PWD's quote hypothesis remains *)
+   ConnectionConditions establish what rnto / pass_ read, so NO hypothesis remains *)
 Theorem C05_handler_is_program_denotation : forall users fuel name arg d appe w,
-  (name = "pwd"%string -> no_dquote (s_cwd (w_s w)) = true) ->
   handler_prog users ref_table Gen.Handlers.programs fuel name arg d appe w
   = handler users ref_table fuel name arg d appe w.
 Proof. exact gen_handler_is_program_denotation. Qed.
 Print Assumptions C05_handler_is_program_denotation.
 
-(* [body_pre] is satisfiable and is no restriction for the other 22 handlers *)
+(* [body_pre] is satisfiable and is no restriction for the other 23 handlers *)
 Theorem C05_body_pre_trivial : forall name w,
-  name <> "rnto"%string -> name <> "pass_"%string -> name <> "pwd"%string -> body_pre name w.
+  name <> "rnto"%string -> name <> "pass_"%string -> body_pre name w.
 Proof. exact body_pre_trivial. Qed.
 Print Assumptions C05_body_pre_trivial.
 
 Theorem C05_body_pre_from_fields : forall name w,
-  has_field (w_s w) "rename_from" = true -> has_field (w_s w) "user" = true ->
-  no_dquote (s_cwd (w_s w)) = true -> body_pre name w.
+  has_field (w_s w) "rename_from" = true -> has_field (w_s w) "user" = true -> body_pre name w.
 Proof. exact body_pre_from_fields. Qed.
 Print Assumptions C05_body_pre_from_fields.
 
-(* FINDING ABOUT THE MODEL (not about aioftp): with a double quote in a directory name the source answers
-   257 DQ/aDQDQbDQ (DQ = the double quote: the one inside the name doubled), [body] says DQ/aDQbDQ *)
-Theorem C05_pwd_model_ignores_quote_doubling : forall users self,
+(* PWD: with a double quote in a directory name the source answers 257 DQ/aDQDQbDQ (DQ = the double
+   quote; the one inside the name doubled, repair of F08) and so does [body] *)
+Theorem C05_pwd_doubles_quotes : forall users self,
   option_map (fun r => o_info (snd (fst r)))
              (run_handler_prog users self (prog_of ref_programs "pwd") [] DNone false W_quote)
     = Some [34; 47; 97; 34; 34; 98; 34]%Z
-  /\ o_info (snd (fst (body users self "pwd" [] DNone false W_quote))) = [34; 47; 97; 34; 98; 34]%Z.
-Proof. exact pwd_model_ignores_quote_doubling. Qed.
-Print Assumptions C05_pwd_model_ignores_quote_doubling.
+  /\ o_info (snd (fst (body users self "pwd" [] DNone false W_quote))) = [34; 47; 97; 34; 34; 98; 34]%Z.
+Proof. exact pwd_model_doubles_quotes. Qed.
+Print Assumptions C05_pwd_doubles_quotes.
 
 (* the data-connection callback PASV / EPSV define is a program too, and [step]'s pseudo-verb "the peer
    connects to the passive listener" is its denotation wherever a listener exists *)
